@@ -127,6 +127,29 @@ type Commitment struct {
 	C2 []*paillier.Ciphertext
 }
 
+type commitmentDTO struct {
+	C1 []*paillier.Ciphertext
+	C2 []*paillier.Ciphertext
+}
+
+// UnmarshalCBOR deserialises a commitment and rejects missing ciphertexts.
+func (c *Commitment) UnmarshalCBOR(data []byte) error {
+	dto, err := serde.UnmarshalCBOR[*commitmentDTO](data)
+	if err != nil {
+		return errs.Wrap(err).WithMessage("cannot unmarshal commitment")
+	}
+	if dto == nil {
+		return proofs.ErrInvalidArgument.WithMessage("commitment is nil")
+	}
+	for _, ct := range slices.Concat(dto.C1, dto.C2) {
+		if ct == nil {
+			return proofs.ErrInvalidArgument.WithMessage("commitment contains a nil ciphertext")
+		}
+	}
+	c.C1, c.C2 = dto.C1, dto.C2
+	return nil
+}
+
 // Bytes serialises the commitment for transcript binding.
 func (c *Commitment) Bytes() []byte {
 	if c == nil {
